@@ -83,9 +83,15 @@ func (r *Report) add(v Verdict, construct string, pos token.Pos, reason string) 
 	r.Obls = append(r.Obls, Obligation{Rule: r.curRule, Key: r.curRule + "|" + construct, Pos: p, Verdict: v, Reason: reason})
 }
 
-func (r *Report) OK(construct string, pos token.Pos, reason string)   { r.add(Discharged, construct, pos, reason) }
-func (r *Report) Bad(construct string, pos token.Pos, reason string)  { r.add(Violated, construct, pos, reason) }
-func (r *Report) Unk(construct string, pos token.Pos, reason string)  { r.add(Undecided, construct, pos, reason) }
+func (r *Report) OK(construct string, pos token.Pos, reason string) {
+	r.add(Discharged, construct, pos, reason)
+}
+func (r *Report) Bad(construct string, pos token.Pos, reason string) {
+	r.add(Violated, construct, pos, reason)
+}
+func (r *Report) Unk(construct string, pos token.Pos, reason string) {
+	r.add(Undecided, construct, pos, reason)
+}
 func (r *Report) Check(ok bool, construct string, pos token.Pos, okReason, badReason string) bool {
 	if ok {
 		r.OK(construct, pos, okReason)
